@@ -424,7 +424,7 @@ func (w *World) finish() {
 		if w.stop {
 			return
 		}
-		if n.at != w.tip && !n.offline {
+		if n.at != w.tip && !n.offline && !n.dead {
 			panic(fmt.Sprintf("harness liveness: node %s at %d, tip %d", n.name, n.at, w.tip))
 		}
 	}
